@@ -109,6 +109,9 @@ type Results struct {
 	failKeys        map[string]bool
 	Observations    []string
 	ObsPaths        [][]string
+	// KnownIDs: per open known finding, how many failures with which "<kind> <id>" were
+	// attributed to it
+	KnownIDs map[string]map[string]int
 }
 
 func (r *Results) noteInconclusive(msg string) {
@@ -143,11 +146,48 @@ func (e *Engine) blockedSig(st *State) []string {
 					break
 				}
 			}
-			out = append(out, fn+":"+opNamesK[g.Pending.Kind])
+			out = append(out, fn+":"+opNamesK[g.Pending.Kind]+e.watchSuffix(st, g))
 		}
 	}
 	sort.Strings(out)
 	return out
+}
+
+// watchSuffix renders the watched words (vWatch) that live in the receiver object of the
+// innermost repository method of a parked goroutine: "[name=value]...".
+func (e *Engine) watchSuffix(st *State, g *G) string {
+	if len(st.watches) == 0 {
+		return ""
+	}
+	for i := len(g.Frames) - 1; i >= 0; i-- {
+		fr := g.Frames[i]
+		if !fr.Info.repo {
+			continue
+		}
+		if fr.Fn.Signature.Recv() == nil || len(fr.Fn.Params) == 0 {
+			return ""
+		}
+		idx, ok := fr.Info.idx[fr.Fn.Params[0]]
+		if !ok || idx >= len(fr.Env) {
+			return ""
+		}
+		recv, ok := fr.Env[idx].(Ptr)
+		if !ok {
+			return ""
+		}
+		s := ""
+		for _, w := range st.watches {
+			if w.p.Obj == recv.Obj {
+				val := "?"
+				if t, ok := st.load(w.p).(*Term); ok && t.IsConst() {
+					val = fmt.Sprint(t.K)
+				}
+				s += "[" + w.name + "=" + val + "]"
+			}
+		}
+		return s
+	}
+	return ""
 }
 
 func (e *Engine) recordFailure(st *State, f *Failure) {
@@ -167,8 +207,55 @@ func (e *Engine) recordFailure(st *State, f *Failure) {
 			open = append(open, k)
 		}
 	}
+	// ... or if the failure carries the signature of one
+	if len(open) == 0 {
+		for _, ks := range e.cfg.KnownSigs {
+			if len(ks.Kinds) > 0 && !ks.Kinds[f.Kind] {
+				continue
+			}
+			ok := true
+			if len(ks.IDs) > 0 {
+				ok = false
+				for _, id := range ks.IDs {
+					if strings.HasPrefix(f.ID, id) {
+						ok = true
+						break
+					}
+				}
+			}
+			for _, rq := range ks.Requires {
+				if !st.known[rq] {
+					ok = false
+				}
+			}
+			for _, rx := range ks.Blocked {
+				m := false
+				for _, b := range f.Blocked {
+					if rx.MatchString(b) {
+						m = true
+						break
+					}
+				}
+				if !m {
+					ok = false
+					break
+				}
+			}
+			if ok && ks.Detail != nil && !ks.Detail.MatchString(f.Detail) {
+				ok = false
+			}
+			if ok && (len(ks.Blocked) > 0 || ks.Detail != nil) {
+				open = append(open, ks.ID)
+				break
+			}
+		}
+	}
 	if len(open) > 0 {
 		for _, k := range open {
+			if r.KnownIDs[k] == nil {
+				r.KnownIDs[k] = map[string]int{}
+			}
+			r.KnownIDs[k][f.Kind+" "+f.ID]++
 			if len(r.KnownHits[k]) < 3 {
 				r.KnownHits[k] = append(r.KnownHits[k], f)
 			} else {
